@@ -994,3 +994,47 @@ Section StepInv.
     inversion H; subst. eauto 10.
   Qed.
 End StepInv.
+
+(* ------------------------------------------------------------------ linearisability *)
+Section Linearisable.
+  Variables S op res : Type.
+  Variable body : op -> S -> outcome S res.
+
+  (* the completed sections, in the order in which they held the mutex, form a sequential execution
+     of the monitor's calls that ends in the current shared state: every result any call has
+     returned (values, sizes, flags) is the result of that call in that sequential execution *)
+  Theorem linearisable : forall s0 progs (s : sys S op res), reach body (init_sys s0 progs) s ->
+    seq_exec body s0 (hist s) (shared s).
+  Proof.
+    intros s0 progs s Hr.
+    apply (hist_inv _ _ _ body (fun st h => seq_exec body s0 h st)) with (s0 := s0) (progs := progs); auto.
+    - intros t o st st' r sg h H Hb. eapply seq_snoc; eauto.
+    - constructor.
+  Qed.
+
+  Lemma seq_exec_inv : forall (R : S -> list (nat * op * res) -> Prop) s0,
+    R s0 [] -> (forall t o s s' r sg h, R s h -> body o s = Ret s' r sg -> R s' (h ++ [(t, o, r)])) ->
+    forall h s, seq_exec body s0 h s -> R s h.
+  Proof. intros R s0 H0 Hs h s H. induction H; eauto. Qed.
+
+  Lemma seq_exec_prefix : forall s0 h1 h2 s, seq_exec body s0 (h1 ++ h2) s -> exists s1, seq_exec body s0 h1 s1.
+  Proof.
+    intros s0 h1 h2; induction h2 as [|x h2 IH] using rev_ind; intros s H.
+    - rewrite app_nil_r in H. eauto.
+    - rewrite app_assoc in H. inversion H as [E|h s1 t o r s2 sg H1 Hb E].
+      + exfalso. symmetry in E. apply app_eq_nil in E. destruct E as (_ & E). discriminate.
+      + apply app_inj_tail in E. destruct E as (-> & _). eauto.
+  Qed.
+
+  (* every entry of the history returned what the call returns from the state its predecessors left *)
+  Theorem seq_exec_entry : forall s0 h1 t o r h2 s, seq_exec body s0 (h1 ++ (t, o, r) :: h2) s ->
+    exists s1 s2 sg, seq_exec body s0 h1 s1 /\ body o s1 = Ret s2 r sg.
+  Proof.
+    intros s0 h1 t o r h2 s H.
+    replace (h1 ++ (t, o, r) :: h2) with ((h1 ++ [(t, o, r)]) ++ h2) in H by (rewrite <- app_assoc; reflexivity).
+    destruct (seq_exec_prefix _ _ _ _ H) as (s2 & H2).
+    inversion H2 as [E|h s1 t' o' r' s2' sg H1 Hb E].
+    - exfalso. symmetry in E. apply app_eq_nil in E. destruct E as (_ & E). discriminate.
+    - apply app_inj_tail in E. destruct E as (-> & E). inversion E; subst. eauto.
+  Qed.
+End Linearisable.
